@@ -263,6 +263,8 @@ class KBEval:
                 d = b.value()
                 if d is not None and d > 0 and d & (d - 1) == 0 and not signed:
                     return a & KB.const(a.w, d - 1)
+                if d and a.value() is not None and not signed:
+                    return KB.const(w, a.value() % d)
                 return KB.top(w)
             if op in ('*', '/'):
                 if a.value() is not None and b.value() is not None and not signed:
